@@ -45,10 +45,10 @@ SessNext(s, e) ==
     [] s = Temporary /\ e \in {SessHello, SessTopoReset} -> Nascent
     [] OTHER -> s
 
-(* expiry of the inactivity timeout returns every state to Nascent; whether the event is then   *)
-(* applied from Nascent or dropped is a freedom                                                  *)
+(* expiry of the inactivity timeout returns every state to Nascent - and that is where the step ends: *)
+(* unlike C14, the statement grants no "may reopen in the same step" (the late event is dropped)       *)
 SessionStep(s, e, elapsed, T) ==
-  IF T[s + 1] # 0 /\ elapsed > T[s + 1] THEN {Nascent, SessNext(Nascent, e)}
+  IF T[s + 1] # 0 /\ elapsed > T[s + 1] THEN {Nascent}
   ELSE {SessNext(s, e)}
 
 (* ------------------------------------------------------------ enumeration engine (beyond the listed properties) *)
